@@ -486,7 +486,7 @@ func stopBucket(n int) string {
 }
 
 func TestHelpers(t *testing.T) {
-	harness.Rapid(t, harness.N(15000, 16*40000), func(t *rapid.T) {
+	harness.Rapid(t, harness.N(15000, 16*320000), func(t *rapid.T) {
 		c, labels := genCase(t)
 		subHelper.See(c, true, harness.HashJSON(c), labels...)
 		subHelper.Run(t, c)
